@@ -312,7 +312,8 @@ def cbmc(gb, cwd, oid, function, route_note='', checks=CBMC_CHECKS, solver=None,
         return [Ob(oid, function, 'all obligations of harness', 'CCV', backend, UNDECIDED, wall, 'cbmc timed out after %ds' % timeout, log=log)]
     res, status, msgs = parse_cbmc_json(out)
     if res is None:
-        return [Ob(oid, function, 'all obligations of harness', 'CCV', backend, UNDECIDED, wall, 'cbmc gave no result: rc=%s %s' % (rc, (out or err)[-800:]), log=log)]
+        why = ' | '.join(m for m in msgs if 'too many' in m or 'rror' in m)[:300] or (out or err)[-300:].replace('\n', ' ')
+        return [Ob(oid, function, 'all obligations of harness', 'CCV', backend, UNDECIDED, wall, 'cbmc gave no result (rc=%s): %s' % (rc, why), log=log)]
     if any('ignoring forall' in m or 'ignoring exists' in m for m in msgs):
         return [Ob(oid, function, 'quantified obligations', 'CCV', backend, UNDECIDED, wall, 'back end ignored a quantifier', log=log)]
     obs, groups, classes, unknown = [], {}, set(), []
